@@ -15,7 +15,8 @@ CONSTANTS GenOps,      \* op names to enumerate
           GenClasses,  \* classes for the varied argument (without "ok")
           AllClasses,  \* classes used when EVERY argument gets the class (pos = 99)
           MaxPos,      \* vary positions 1..MaxPos
-          BigCounts    \* extra argument counts (129, 257, 476, 477, 600 ...)
+          BigCounts,   \* extra argument counts (129, 257, 476, 477, 600 ...)
+          GenCounts    \* classes of the size / count argument of CountOps and of PAGE
 
 VARIABLES m, stage, ctx, hist
 vars == <<m, stage, ctx, hist>>
@@ -29,7 +30,14 @@ Pre(c) == CASE c = "skip"   -> <<Stmt("IF", 1, 1, "0")>>
             [] c = "rept"   -> <<S0("REPT", 1)>>
             [] c = "struct" -> <<S0("STRUCT", 0)>>
             [] c = "sect"   -> <<S0("SECTION", 1)>>
+            \* listing contexts (asl -L): default page, a page 5 columns wide, a page 5 lines long; a user function
+            \* is defined so that the function list is printed besides the symbol table
+            [] c = "ltop"    -> <<S0("FUNCTION", 2)>>
+            [] c = "lnarrow" -> <<Stmt("PAGE", 2, 2, "c5"), S0("FUNCTION", 2)>>
+            [] c = "lshort"  -> <<Stmt("PAGE", 1, 1, "c5"), S0("FUNCTION", 2)>>
             [] OTHER        -> <<>>                      \* "top", "open"
+ListingCtx == {"ltop", "lnarrow", "lshort"}
+Opts(c) == IF c \in ListingCtx THEN <<"-L">> ELSE <<>>     \* command line options of the run (besides -q)
 Mid(c) == CASE c = "mac"  -> <<S0("ENDM", 0), S0("CALLM1", 0)>>
             [] c = "rept" -> <<S0("ENDM", 0)>>
             [] OTHER      -> <<>>
@@ -43,7 +51,7 @@ RunSucc(x, q) == IF q = <<>> THEN x ELSE RunSucc(Succ(x, Head(q)), Tail(q))
 ArgCounts(o) ==
   LET small == {k \in {o.lo - 1, o.lo, o.lo + 1, o.hi - 1, o.hi, o.hi + 1} : k >= 0 /\ k <= 4}
   IN small \cup (IF o.hi = AMAX THEN BigCounts ELSE {k \in BigCounts : k > AMAX})
-CtxOf(o) == IF o.g \in {"fn", "bo"} THEN GenCtx \cap {"top", "mac", "skip"} ELSE GenCtx
+CtxOf(o) == IF o.g \in {"fn", "bo"} THEN GenCtx \cap {"top", "mac", "skip", "lnarrow"} ELSE GenCtx
 TestStmts(c) ==
   UNION { IF c \notin CtxOf(Op(n)) \/ (c = "open" /\ Op(n).e \notin {"rec", "if+", "sw+", "st+", "se+", "ph+", "sv+", "ex+"})
           THEN {}
@@ -52,6 +60,11 @@ TestStmts(c) ==
                             \cup {Stmt(n, k, p, cl) : p \in 1..(IF k < MaxPos THEN k ELSE MaxPos), cl \in GenClasses}
                             \cup (IF k >= 2 THEN {Stmt(n, k, 99, cl) : cl \in AllClasses} ELSE {})
                        : k \in ArgCounts(Op(n)) }
+               \cup (IF n \in CountOps
+                     THEN {Stmt(n, k, 1, cl) : cl \in GenCounts \cup {"0", "1", "m1", "h31"},
+                                               k \in {Op(n).lo, IF n = "ALIGN" THEN 2 ELSE Op(n).lo, IF n \in {"DDUP", "DREP"} THEN 2 ELSE Op(n).lo}}
+                     ELSE IF n = "PAGE" THEN {Stmt(n, k, p, cl) : cl \in GenCounts, k \in {1, 2}, p \in {1, 2}} \ {Stmt(n, 1, 2, cl) : cl \in GenCounts}
+                     ELSE {})
           : n \in GenOps }
 
 \* outcome preferred for computing the closers: fewest errors, then most constructs open
@@ -67,6 +80,7 @@ CaseOf(x, c, s) ==
       cstm    == [i \in 1..Len(closers) |-> S0(closers[i], 0)]
       finals  == {EndOfFile(f) : f \in RunSeq(outs, cstm)}
   IN [ctx |-> c, s |-> s, g |-> Op(s.op).g, pre |-> Pre(c), mid |-> Body(s) \o Mid(c), closers |-> closers,
+      opts |-> Opts(c),
       allowed |-> {Exit(f) : f \in finals},
       heavy |-> \E f \in finals : f.heavy,
       live |-> x.ifasm /\ ~x.rec.on,
